@@ -1234,8 +1234,8 @@ pub fn property() -> Property {
         parts: vec![
             Part { name: "exh4", run: run_seq, quick: Budget::Exhaustive { param: 4 }, thorough: Budget::Exhaustive { param: 4 }, min_nontrivial_pct: 0 },
             Part { name: "exh5", run: run_seq, quick: Budget::Skip, thorough: Budget::Exhaustive { param: 5 }, min_nontrivial_pct: 0 },
-            Part { name: "random", run: run_seq, quick: Budget::Random { cases: 60_000, bytes: 64 }, thorough: Budget::Random { cases: 1_000_000, bytes: 64 }, min_nontrivial_pct: 15 },
-            Part { name: "many", run: run_many, quick: Budget::Random { cases: 4_000, bytes: 160 }, thorough: Budget::Random { cases: 100_000, bytes: 160 }, min_nontrivial_pct: 30 },
+            Part { name: "random", run: run_seq, quick: Budget::Random { cases: 1_000_000, bytes: 64 }, thorough: Budget::Random { cases: 5_000_000, bytes: 64 }, min_nontrivial_pct: 15 },
+            Part { name: "many", run: run_many, quick: Budget::Random { cases: 40_000, bytes: 160 }, thorough: Budget::Random { cases: 200_000, bytes: 160 }, min_nontrivial_pct: 30 },
             Part { name: "conc", run: run_conc, quick: Budget::Random { cases: 16_000, bytes: 64 }, thorough: Budget::Random { cases: 50_000, bytes: 64 }, min_nontrivial_pct: 40 },
         ],
         watchdog: true,
